@@ -41,7 +41,43 @@ func (rs relationQuery) find(name string) (*ast.Relation, bool) {
 	return nil, false
 }
 
+// typeIndex maps namespace name -> relation name -> relation (the first
+// declaration wins, as with the linear scans above). It is built once per
+// typeCheck so that every check is a constant-time lookup; scanning all
+// namespaces / relations for every check made type checking quadratic in the
+// size of the document.
+type typeIndex map[string]map[string]*ast.Relation
+
+func buildTypeIndex(namespaces []namespace) typeIndex {
+	ix := make(typeIndex, len(namespaces))
+	for i := range namespaces {
+		n := &namespaces[i]
+		if _, ok := ix[n.Name]; ok {
+			continue
+		}
+		rels := make(map[string]*ast.Relation, len(n.Relations))
+		for j := range n.Relations {
+			if _, ok := rels[n.Relations[j].Name]; !ok {
+				rels[n.Relations[j].Name] = &n.Relations[j]
+			}
+		}
+		ix[n.Name] = rels
+	}
+	return ix
+}
+
+func (ix typeIndex) hasNamespace(name string) bool {
+	_, ok := ix[name]
+	return ok
+}
+
+func (ix typeIndex) findRelation(namespace, relation string) (*ast.Relation, bool) {
+	r, ok := ix[namespace][relation]
+	return r, ok
+}
+
 func (p *parser) typeCheck() {
+	p.index = buildTypeIndex(p.namespaces)
 	for _, check := range p.checks {
 		check(p)
 	}
@@ -54,7 +90,7 @@ func (p *parser) addCheck(check typeCheck) {
 // checkNamespace checks that the there exists a namespace with the given name.
 func checkNamespaceExists(namespace item) typeCheck {
 	return func(p *parser) {
-		if _, ok := namespaceQuery(p.namespaces).find(namespace.Val); ok {
+		if p.index.hasNamespace(namespace.Val) {
 			return
 		}
 		p.addErr(namespace, "namespace %q was not declared", namespace.Val)
@@ -65,8 +101,8 @@ func checkNamespaceExists(namespace item) typeCheck {
 // and 2. that there exists the given relation in that namespace.
 func checkNamespaceHasRelation(namespace, relation item) typeCheck {
 	return func(p *parser) {
-		if n, ok := namespaceQuery(p.namespaces).find(namespace.Val); ok {
-			if _, ok := relationQuery(n.Relations).find(relation.Val); ok {
+		if p.index.hasNamespace(namespace.Val) {
+			if _, ok := p.index.findRelation(namespace.Val, relation.Val); ok {
 				return
 			}
 			p.addErr(relation,
@@ -83,8 +119,8 @@ func checkNamespaceHasRelation(namespace, relation item) typeCheck {
 func checkCurrentNamespaceHasRelation(current *namespace, relation item) typeCheck {
 	namespace := current.Name
 	return func(p *parser) {
-		if n, ok := namespaceQuery(p.namespaces).find(namespace); ok {
-			if _, ok := relationQuery(n.Relations).find(relation.Val); ok {
+		if p.index.hasNamespace(namespace) {
+			if _, ok := p.index.findRelation(namespace, relation.Val); ok {
 				return
 			}
 			p.addErr(relation,
@@ -108,7 +144,7 @@ func recursiveCheckAllRelationsTypesHaveRelation(p *parser, item item, namespace
 		p.addErr(item, "could not typecheck deeply nested SubjectSet further")
 		return
 	}
-	r, ok := namespaceQuery(p.namespaces).findRelation(namespace, relationType)
+	r, ok := p.index.findRelation(namespace, relationType)
 	if !ok {
 		p.addErr(item, "relation %q was not declared in namespace %q",
 			relationType, namespace)
@@ -116,7 +152,7 @@ func recursiveCheckAllRelationsTypesHaveRelation(p *parser, item item, namespace
 	}
 	for _, t := range r.Types {
 		if t.Relation == "" {
-			if _, ok := p.query().findRelation(t.Namespace, relation); !ok {
+			if _, ok := p.index.findRelation(t.Namespace, relation); !ok {
 				p.addErr(item, "relation %q was not declared in namespace %q",
 					relation, t.Namespace)
 			}
